@@ -29,7 +29,7 @@ type c20Case struct {
 var c20KindMap = map[string]string{
 	"TextNode": "Text", "PrintNode": "Print", "NameExpr": "Name", "NumberExpr": "Number", "StringExpr": "String", "BoolExpr": "Bool", "NullExpr": "Null",
 	"IfNode": "If", "ForNode": "For", "SetNode": "Set", "DoNode": "Do", "FilterNode": "Filter", "BlockNode": "Block", "ExtendsNode": "Extends",
-	"UseNode": "Use", "IncludeNode": "Include", "EmbedNode": "Embed", "MacroNode": "Macro", "ImportNode": "Import", "FromNode": "From",
+	"UseNode": "Use", "IncludeNode": "Include", "EmbedNode": "Embed", "MacroNode": "Macro", "ImportNode": "Import", "FromNode": "From", "TestExpr": "Test",
 }
 
 type anchor struct {
@@ -243,6 +243,9 @@ func init() {
 					bad = "first line\n" + c17Broken[k%len(c17Broken)]
 				}
 			}
+			if cs.What == "missing" {
+				bad, ok = "missing", true // the named template does not exist at all
+			}
 			if !ok {
 				return nil
 			}
@@ -252,6 +255,9 @@ func init() {
 				if n != cs.Tpl {
 					tpls[n] = s
 				}
+			}
+			if cs.What == "missing" {
+				delete(tpls, bname)
 			}
 			entry := map[string]string{"direct": bname, "include": "entry.twig", "extends": "child.twig", "import": "imp.twig"}[cs.Via]
 			loader := cs.C14.P.Loader
@@ -363,6 +369,8 @@ func init() {
 			}
 			if rapid.Bool().Draw(t, "brokenkind") {
 				cs.What = "broken:" + strconv.Itoa(rapid.IntRange(0, len(c17Broken)-1).Draw(t, "bk"))
+			} else if rapid.IntRange(0, 4).Draw(t, "missingkind") == 0 {
+				cs.What = "missing"
 			}
 			return cs
 		})
